@@ -165,6 +165,36 @@ func Validate(s *js.Schema, doc []byte) Res {
 	return Safe(func() error { return s.Validate(libjson.New("doc", doc)) })
 }
 
+// ValidateUsed validates a Document object that has been used before: each element of uses is
+// "next:<k>" (k events read), "len", "check", "validate" (validated by s itself) or "other" (validated
+// by another schema). Validate's verdict depends on the text of a document only.
+func ValidateUsed(s *js.Schema, doc []byte, uses []string) Res {
+	return Safe(func() error {
+		d := libjson.New("doc", doc)
+		for _, u := range uses {
+			switch u {
+			case "len":
+				_, _ = d.Len()
+			case "check":
+				_ = d.Check()
+			case "validate":
+				_ = s.Validate(d)
+			case "other":
+				_ = js.New("other", "[\n  1,\n  {\"a\": true}\n]").Validate(d)
+			default:
+				k := 0
+				fmt.Sscanf(u, "next:%d", &k)
+				for i := 0; i < k; i++ {
+					if _, err := d.NextLexeme(); err != nil {
+						break
+					}
+				}
+			}
+		}
+		return s.Validate(d)
+	})
+}
+
 // ValidateSpec builds a fresh schema and validates one document.
 func ValidateSpec(sp Spec, doc []byte) (add, check, val Res) {
 	s, add := Build(sp)
